@@ -212,9 +212,8 @@ def noRankingB (n : Nat) (cs : List Con) (gs : List Gen) : Bool :=
   let gs' := expandLines gs
   gs'.any (fun g => g.kind == .point) && gs'.all (genInB cs) && !feasible (n + 1) (rankCons n gs')
 
-/-- (untrusted search) a rational solution of `cs` over `n` variables proposed by the simplex,
-    returned only when `certFeas` accepts it -/
-def findPoint (n : Nat) (cs : List Con) : Option (List Int × Int) :=
+/-- (untrusted search) a rational point proposed by the simplex for `cs` over `n` variables -/
+def findPointRaw (n : Nat) (cs : List Con) : Option (List Int × Int) :=
   let m := cs.length
   if m == 0 then some (List.replicate n 0, 1) else
   let act : List Nat := (List.range n).filter fun j => cs.any fun c => c.coeffs.getD j 0 != 0
@@ -238,9 +237,14 @@ def findPoint (n : Nat) (cs : List Con) : Option (List Int × Int) :=
       match act.idxOf? j with
       | some idx => w.getD idx 0 / x0
       | none => 0
-    let (num, den) := toIntVec xs
-    if certFeas cs num den then some (num, den) else none
+    some (toIntVec xs)
   | _ => none
+
+/-- a solution of `cs`, returned only when the verified checker `certFeas` accepts it -/
+def findPoint (n : Nat) (cs : List Con) : Option (List Int × Int) :=
+  match findPointRaw n cs with
+  | some (num, den) => if certFeas cs num den then some (num, den) else none
+  | none => none
 
 /-- **Does an affine ranking function exist?**  `cs`: the relation (over `2n` variables); `gs`: a
     generator system proposed for it (untrusted hint, e.g. what the library reports).
